@@ -327,7 +327,14 @@ func runConstrCase(o *Oracle, d json.RawMessage, oc *Outcome) {
 	}
 	s := solver.New(pb)
 	s.CuttingPlanes = c.CP
+	// conflict analysis over cardinality / PB antecedents: sampled snapshots (hook) are compared
+	// with the Lean mirror of learnClause (GS.Analyze, theorem analyze_sound_pb)
+	analyses := sampleAnalyses(s, 8, 20, 30)
 	st := s.Solve()
+	s.VerifSetAnalyzeHook(nil)
+	if pb.Status == solver.Indet {
+		analysisMirror(o, oc, *analyses, entry)
+	}
 	truth := o.Sat(n, sem)
 	switch st {
 	case solver.Sat:
